@@ -9,6 +9,7 @@ git -C /repo worktree remove --force $W >/dev/null 2>&1
 git -C /repo worktree add -q $W HEAD || exit 2
 cp /repo/Cargo.lock $W/
 trap 'git -C /repo worktree remove --force $W >/dev/null 2>&1; rm -rf $W' EXIT
+DIRS=(); for D in "$@"; do DIRS+=("$(realpath "$D")"); done
 cd $W
 export CARGO_NET_OFFLINE=true
 run_demo() { # prints pass/fail
@@ -22,8 +23,7 @@ run_demo() { # prints pass/fail
 		rm -f crates/kira/tests/seed_demo.rs
 	fi
 }
-for D in "$@"; do
-	D=$(realpath "$D")
+for D in "${DIRS[@]}"; do
 	git checkout -q -- . ; git clean -fdq crates
 	base_demo=$(run_demo "$D")
 	if ! git apply "$D/patch.diff"; then echo "{\"applies\": false}" > "$D/confirm.json"; echo "$D: patch does not apply"; continue; fi
